@@ -6,8 +6,8 @@
     the model), hence in particular for the instantiation used in the
     correspondence.  Proofs: Proofs/CompilerExpand.v. *)
 From Coq Require Import List ZArith NArith Bool String.
-From RG Require Import Base.Str Base.Num Model.Recipe Model.Compiler Model.CompilerInst
-  Proofs.CompilerExpand.
+From RG Require Import Base.Str Base.Num Model.Recipe Model.Compiler Model.CompilerInst Spec.CompileSpec
+  Proofs.CompilerExpand Proofs.CompilerMain.
 Import ListNotations.
 Open Scope string_scope.
 
@@ -32,6 +32,14 @@ Theorem C05_conservation :
   compile_ast convert tol lower p = COk bs ->
   exists bs0 t0, pass1 lower p = P1Ok bs0 t0 /\ blocks_sub bs bs0.
 Proof. exact compile_conserves. Qed.
+
+(** Stated against the declarative name resolution of Spec/CompileSpec.v
+    ("expanding the description with no folding at all"). *)
+Theorem C05_conservation_resolve :
+  forall convert tol lower p bs,
+  compile_ast convert tol lower p = COk bs ->
+  exists bs0, resolve lower p = Resolved bs0 /\ blocks_sub bs bs0.
+Proof. exact compile_conserves_resolve. Qed.
 
 (** The same for the instantiation that is run against the implementation. *)
 Corollary C05_conservation_inst :
@@ -62,5 +70,6 @@ Proof. split; [vm_compute; reflexivity|]. vm_compute. eexists _, _. split; refle
 
 Print Assumptions C05_substitution_invisible.
 Print Assumptions C05_conservation.
+Print Assumptions C05_conservation_resolve.
 Print Assumptions C05_conservation_inst.
 Print Assumptions C05_example_accepted.
